@@ -18,21 +18,82 @@ static mut BUDGET: u32 = 0; // remaining interfering updates
 static mut NOW_CALLS: u32 = 0;
 static mut LAST_CLOCK_US: i128 = 0; // ghost: last clock reading in microseconds (for covers)
 
-pub fn env_system_time_now() -> SystemTime {
+/// one scheduling point: another thread may complete a whole next_timestamp() here, i.e. (rely) CAS `last` upwards
+/// to a value it then hands out
+fn env_step() {
     unsafe {
-        NOW_CALLS += 1;
         if BUDGET > 0 && kani::any::<bool>() {
             BUDGET -= 1;
-            let g = &*GEN;
-            let cur = g.verif_last().load(Ordering::SeqCst);
+            let cell = (&*GEN).verif_last().as_ptr();
+            let cur = *cell;
             let v: i64 = kani::any();
             kani::assume(v > cur);
             kani::assume(v < i64::MAX - 8);
-            g.verif_last().store(v, Ordering::SeqCst);
+            *cell = v;
             HANDED_MAX = v;
         }
     }
+}
+
+pub fn env_system_time_now() -> SystemTime {
+    unsafe {
+        NOW_CALLS += 1;
+    }
+    env_step();
     crate::stubs::any_system_time()
+}
+
+// Every atomic access of the generator is a scheduling point: the stubs first let the environment run, then perform the
+// operation on the cell (Kani executes one thread, so a plain read-modify-write through as_ptr() is the atomic op).
+pub fn atomic_load(a: &std::sync::atomic::AtomicI64, _o: Ordering) -> i64 {
+    env_step();
+    unsafe { *a.as_ptr() }
+}
+pub fn atomic_cas(a: &std::sync::atomic::AtomicI64, current: i64, new: i64, _s: Ordering, _f: Ordering) -> Result<i64, i64> {
+    env_step();
+    unsafe {
+        let p = a.as_ptr();
+        let old = *p;
+        if old == current {
+            *p = new;
+            Ok(old)
+        } else {
+            Err(old)
+        }
+    }
+}
+pub fn atomic_fetch_max(a: &std::sync::atomic::AtomicI64, v: i64, _o: Ordering) -> i64 {
+    env_step();
+    unsafe {
+        let p = a.as_ptr();
+        let old = *p;
+        if v > old {
+            *p = v;
+        }
+        old
+    }
+}
+pub fn atomic_store(a: &std::sync::atomic::AtomicI64, v: i64, _o: Ordering) {
+    env_step();
+    unsafe { *a.as_ptr() = v }
+}
+pub fn atomic_swap(a: &std::sync::atomic::AtomicI64, v: i64, _o: Ordering) -> i64 {
+    env_step();
+    unsafe {
+        let p = a.as_ptr();
+        let old = *p;
+        *p = v;
+        old
+    }
+}
+pub fn atomic_fetch_add(a: &std::sync::atomic::AtomicI64, v: i64, _o: Ordering) -> i64 {
+    env_step();
+    unsafe {
+        let p = a.as_ptr();
+        let old = *p;
+        *p = old.wrapping_add(v);
+        old
+    }
 }
 
 fn step(with_warnings: bool, r: u32) {
@@ -50,8 +111,8 @@ fn step(with_warnings: bool, r: u32) {
     let init: i64 = kani::any();
     // bound: `last + 1` must not overflow (DESIGN §7: i64::MAX is outside the claim)
     kani::assume(init < i64::MAX - 8);
-    g.verif_last().store(init, Ordering::SeqCst);
     unsafe {
+        *g.verif_last().as_ptr() = init;
         GEN = &g;
         HANDED_MAX = init;
         BUDGET = r;
@@ -60,7 +121,7 @@ fn step(with_warnings: bool, r: u32) {
     let t = g.next_timestamp();
     let handed = unsafe { HANDED_MAX };
     assert!(t > handed, "returned timestamp not above every timestamp handed out before");
-    assert!(g.verif_last().load(Ordering::SeqCst) == t, "last != returned value");
+    assert!(unsafe { *g.verif_last().as_ptr() } == t, "last != returned value");
     kani::cover!(unsafe { NOW_CALLS } > 1, "retried_after_interference");
     kani::cover!(true, "reach_end");
     std::mem::forget(g);
@@ -69,11 +130,17 @@ fn step(with_warnings: bool, r: u32) {
 // VK: prop=C18 tier=quick cap=300 stubbed=1
 // VK-funcs: MonotonicTimestampGenerator::{new,without_warnings,next_timestamp,compute_next}
 // VK-bounds: initial last any i64 < i64::MAX-8; up to R=2 interfering successful updates by other threads per call; any clock reading (post-epoch secs<2^40 or pre-epoch); unwind 4 (=R+2) with unwinding assertion
-// VK-assumes: SystemTime::now stubbed by env model (interference + arbitrary clock); tokio/std Instant::now stubbed (arbitrary); tracing stubbed; atomics sequentially consistent (Kani); rely: other threads only ever CAS last upwards
+// VK-assumes: every AtomicI64 access (load/compare_exchange/fetch_max/store/swap/fetch_add) and SystemTime::now are scheduling points where the environment (other threads obeying the same guarantee) may CAS last upwards and hand that value out; arbitrary clock; tokio/std Instant::now stubbed (arbitrary); tracing stubbed; atomics sequentially consistent (Kani); rely: other threads only ever CAS last upwards
 // VK-out: last >= i64::MAX-8; memory orderings weaker than SeqCst; statement-level explicit timestamps (async Connection code)
 #[kani::proof]
-#[kani::unwind(4)]
+#[kani::unwind(5)]
 #[kani::stub(std::time::SystemTime::now, env_system_time_now)]
+#[kani::stub(std::sync::atomic::Atomic::<i64>::load, atomic_load)]
+#[kani::stub(std::sync::atomic::Atomic::<i64>::compare_exchange, atomic_cas)]
+#[kani::stub(std::sync::atomic::Atomic::<i64>::fetch_max, atomic_fetch_max)]
+#[kani::stub(std::sync::atomic::Atomic::<i64>::store, atomic_store)]
+#[kani::stub(std::sync::atomic::Atomic::<i64>::swap, atomic_swap)]
+#[kani::stub(std::sync::atomic::Atomic::<i64>::fetch_add, atomic_fetch_add)]
 #[kani::stub(std::time::Instant::now, crate::stubs::std_instant_now)]
 #[kani::stub(tracing::__macro_support::__is_enabled, crate::stubs::tracing_is_enabled)]
 #[kani::stub(tracing_core::callsite::DefaultCallsite::interest, crate::stubs::tracing_interest)]
@@ -85,11 +152,17 @@ pub fn c18_step_nowarn_r2() {
 // VK: prop=C18 tier=quick cap=600 stubbed=1
 // VK-funcs: MonotonicTimestampGenerator::{new,with_warning_times,next_timestamp,compute_next} incl. the clock-skew warning branch (Mutex<Instant>, checked_add)
 // VK-bounds: as c18_step_nowarn_r2 with R=1; warning threshold/interval any whole seconds < 2^20; unwind 3
-// VK-assumes: SystemTime::now stubbed by env model; Instant::now arbitrary; tracing stubbed
+// VK-assumes: as c18_step_nowarn_r2 (scheduling points at every atomic access); Instant::now arbitrary; tracing stubbed
 // VK-out: as c18_step_nowarn_r2
 #[kani::proof]
-#[kani::unwind(3)]
+#[kani::unwind(4)]
 #[kani::stub(std::time::SystemTime::now, env_system_time_now)]
+#[kani::stub(std::sync::atomic::Atomic::<i64>::load, atomic_load)]
+#[kani::stub(std::sync::atomic::Atomic::<i64>::compare_exchange, atomic_cas)]
+#[kani::stub(std::sync::atomic::Atomic::<i64>::fetch_max, atomic_fetch_max)]
+#[kani::stub(std::sync::atomic::Atomic::<i64>::store, atomic_store)]
+#[kani::stub(std::sync::atomic::Atomic::<i64>::swap, atomic_swap)]
+#[kani::stub(std::sync::atomic::Atomic::<i64>::fetch_add, atomic_fetch_add)]
 #[kani::stub(std::time::Instant::now, crate::stubs::std_instant_now)]
 #[kani::stub(tracing::__macro_support::__is_enabled, crate::stubs::tracing_is_enabled)]
 #[kani::stub(tracing_core::callsite::DefaultCallsite::interest, crate::stubs::tracing_interest)]
